@@ -3,6 +3,7 @@ pub mod c02;
 pub mod c03;
 pub mod c05;
 pub mod c06;
+pub mod c07;
 pub mod c08;
 pub mod c09;
 pub mod c10;
@@ -24,6 +25,7 @@ pub fn run_property(ctx: &mut Ctx) -> bool {
         "C03" => c03::run(ctx),
         "C05" => c05::run(ctx),
         "C06" => c06::run(ctx),
+        "C07" => c07::run(ctx),
         "C08" => c08::run(ctx),
         "C09" => c09::run(ctx),
         "C10" => c10::run(ctx),
@@ -80,6 +82,7 @@ pub fn replay(body: &Value) -> i32 {
         "unack" => replay_part(&c18::C18Part, body),
         "cancel" => replay_part(&c10::C10Part, body),
         "naks" => replay_part(&c08::C08Part, body),
+        "sender" => replay_part(&c07::C07Part, body),
         "suspend" => replay_part(&c19::C19Part, body),
         "roundtrip" => replay_part(&c05::RtPart, body),
         "checksum" => replay_part(&c14::CkPart, body),
